@@ -66,7 +66,7 @@ Fixpoint prep_entries {A} (skip : exn -> bool) (child : str -> result (option A)
   end.
 
 (* which failures of a child the loop survives: FileNotFound from getHandler (D7),
-   OSError from getHandler / getentry (D26) *)
+   OSError from getHandler / getentry (D27) *)
 Definition skip_of (fx : fixes) (e : exn) : bool :=
   match e with
   | FileNotFound => fx_skip_child fx
